@@ -152,6 +152,7 @@ func (s rdNumber[T]) Sum() (sum T) {
 	s.txn.initialize()
 	s.txn.rangeRead(func(chunk commit.Chunk, index bitmap.Bitmap) {
 		if int(chunk) < len(s.reader.chunks) {
+			index = withValues(index, s.reader.chunks[chunk].fill)
 			sum += bitmap.Sum(s.reader.chunks[chunk].data, index)
 		}
 	})
@@ -164,6 +165,7 @@ func (s rdNumber[T]) Avg() float64 {
 	s.txn.initialize()
 	s.txn.rangeRead(func(chunk commit.Chunk, index bitmap.Bitmap) {
 		if int(chunk) < len(s.reader.chunks) {
+			index = withValues(index, s.reader.chunks[chunk].fill)
 			sum += bitmap.Sum(s.reader.chunks[chunk].data, index)
 			ct += index.Count()
 		}
@@ -176,6 +178,7 @@ func (s rdNumber[T]) Min() (min T, ok bool) {
 	s.txn.initialize()
 	s.txn.rangeRead(func(chunk commit.Chunk, index bitmap.Bitmap) {
 		if int(chunk) < len(s.reader.chunks) {
+			index = withValues(index, s.reader.chunks[chunk].fill)
 			if v, hit := bitmap.Min(s.reader.chunks[chunk].data, index); hit && (v < min || !ok) {
 				min = v
 				ok = true
@@ -190,6 +193,7 @@ func (s rdNumber[T]) Max() (max T, ok bool) {
 	s.txn.initialize()
 	s.txn.rangeRead(func(chunk commit.Chunk, index bitmap.Bitmap) {
 		if int(chunk) < len(s.reader.chunks) {
+			index = withValues(index, s.reader.chunks[chunk].fill)
 			if v, hit := bitmap.Max(s.reader.chunks[chunk].data, index); hit && (v > max || !ok) {
 				max = v
 				ok = true
@@ -197,6 +201,14 @@ func (s rdNumber[T]) Max() (max T, ok bool) {
 		}
 	})
 	return
+}
+
+// withValues narrows down a copy of the selection to the rows which have a value in the
+// column, leaving the selection of the transaction itself untouched.
+func withValues(index, fill bitmap.Bitmap) bitmap.Bitmap {
+	index = index.Clone(nil)
+	index.And(fill)
+	return index
 }
 
 // readNumberOf creates a new numeric reader
